@@ -74,14 +74,20 @@ void h_util_endian(void) {
 #  define UTIL_LEN_MAX 24
 # endif
 #endif
+#ifndef UTIL_PART
+# define UTIL_PART 7   /* bit 0: is_zero_array, bit 1: memcmp_var, bit 2: memczero */
+#endif
 void h_util_loops(void) {
     INPUT(size_t, len); INPUT(size_t, g); INPUT(int, flag);
-    unsigned char *s1, *s2, *z, *zz, z0; int r, c;
+    unsigned char *s1, *s2, *z, *zz, z0; int r = 0, c = 0;
     __CPROVER_assume(len >= 1 && len <= UTIL_LEN_MAX && g < len);
-    s1 = malloc(len); s2 = malloc(len); z = malloc(len); zz = calloc(len, 1);
-    __CPROVER_assume(s1 != NULL && s2 != NULL && z != NULL && zz != NULL);
     verif_gi = g; verif_allzero = 0;
+#if UTIL_PART & 3
+    s1 = malloc(len); __CPROVER_assume(s1 != NULL);
+#endif
+#if UTIL_PART & 1
     /* is_zero_array: 1 iff every byte is zero */
+    zz = calloc(len, 1); __CPROVER_assume(zz != NULL);
     r = secp256k1_is_zero_array(s1, len);
     __CPROVER_assert(r == 0 || r == 1, "C05 is_zero_array: returns 0 or 1");
     if (r == 1) __CPROVER_assert(s1[g] == 0, "C05 is_zero_array: returns 1 only if every byte is zero");
@@ -89,28 +95,48 @@ void h_util_loops(void) {
     verif_allzero = 1;
     __CPROVER_assert(secp256k1_is_zero_array(zz, len) == 1, "C05 is_zero_array: an all-zero array gives 1");
     verif_allzero = 0;
+    if (r == 1) REACH("is_zero_array all zero");
+    if (r == 0) REACH("is_zero_array some non-zero");
+#endif
+#if UTIL_PART & 2
     /* memcmp_var: 0 iff equal */
+    s2 = malloc(len); __CPROVER_assume(s2 != NULL);
     c = secp256k1_memcmp_var(s1, s2, len);
     if (c == 0) __CPROVER_assert(s1[g] == s2[g], "C05 memcmp_var: returns 0 only if every byte is equal");
     if (s1[g] != s2[g]) __CPROVER_assert(c != 0, "C05 memcmp_var: any differing byte gives non-zero");
     __CPROVER_assert(secp256k1_memcmp_var(s1, s1, len) == 0, "C05 memcmp_var: identical arrays compare equal");
-#ifndef UTIL_LC
+# ifndef UTIL_LC
     {   /* bounded only: memcmp order semantics = difference at the first differing position */
         size_t j; int spec = 0;
         for (j = 0; j < UTIL_LEN_MAX; j++) if (j < len && spec == 0 && s1[j] != s2[j]) spec = (int)s1[j] - (int)s2[j];
         __CPROVER_assert(c == spec, "C05 memcmp_var: value is the byte difference at the first differing position");
     }
+# endif
+    if (c == 0) REACH("memcmp_var equal");
+    if (c < 0) REACH("memcmp_var less");
 #endif
+#if UTIL_PART & 4
     /* memczero */
+# if defined(UTIL_FIXEDBUF)
+    {   /* fixed-size buffer (cheaper than a heap object of symbolic size for long unwindings); bytes at and after len
+         * must stay untouched (ghost index g2) */
+        static unsigned char zbuf[UTIL_LEN_MAX + 8]; INPUT(size_t, g2); unsigned char y0;
+        __CPROVER_assume(g2 >= len && g2 < UTIL_LEN_MAX + 8);
+        z = zbuf; z0 = z[g]; y0 = z[g2];
+        __CPROVER_assume(flag == 0 || flag == 1);
+        secp256k1_memczero(z, len, flag);
+        __CPROVER_assert(z[g2] == y0, "C05 memczero: bytes at and after len untouched");
+    }
+# else
+    z = malloc(len); __CPROVER_assume(z != NULL);
     z0 = z[g];
     __CPROVER_assume(flag == 0 || flag == 1);
     secp256k1_memczero(z, len, flag);
+# endif
     __CPROVER_assert(z[g] == (flag ? 0 : z0), "C05 memczero: every byte zero if flag, unchanged otherwise");
-    if (r == 1) REACH("is_zero_array all zero");
-    if (r == 0) REACH("is_zero_array some non-zero");
-    if (c == 0) REACH("memcmp_var equal");
-    if (c < 0) REACH("memcmp_var less");
     if (flag) REACH("memczero flag set");
+#endif
     if (len == UTIL_LEN_MAX) REACH("maximal length");
+    (void)s1; (void)s2; (void)z; (void)zz; (void)z0; (void)r; (void)c;
 }
 #endif
